@@ -408,7 +408,7 @@ func (r *wsRun) start() error {
 	}
 	res := make(chan sr, 1)
 	go func() {
-		ch, err := r.client.Start(context.Background())
+		ch, err := guardStart(r.client)
 		res <- sr{ch, err}
 	}()
 	// handshake: init write, ack read (exactly one read belongs to Start; a later one is the
@@ -1640,6 +1640,7 @@ func wsStartFaults(c *Ctx) {
 		name string
 		dialFail, initFail bool
 		reads []wsRead
+		closeNow bool // after the failed Start call Close at once instead of retrying Start
 	}
 	ack := []byte(`{"type":"connection_ack"}`)
 	cases := []sc{
@@ -1650,6 +1651,10 @@ func wsStartFaults(c *Ctx) {
 		{name: "other-then-read-fails", reads: []wsRead{{data: []byte(`{"type":"ka"}`)}, {err: errWsInjected}}},
 		{name: "other-then-ack", reads: []wsRead{{data: []byte(`{"type":"ka"}`)}, {data: ack}}},
 		{name: "ack", reads: []wsRead{{data: ack}}},
+	}
+	for _, s := range cases[:5] {
+		s.name, s.closeNow = s.name+"+close", true
+		cases = append(cases, s)
 	}
 	for _, s := range cases {
 		c.Res.Eval()
@@ -1667,7 +1672,7 @@ func wsStartFaults(c *Ctx) {
 			err error
 		}
 		res := make(chan sr, 1)
-		go func() { ch, err := cl.Start(context.Background()); res <- sr{ch, err} }()
+		go func() { ch, err := guardStart(cl); res <- sr{ch, err} }()
 		ri := 0
 		var got sr
 		readerReads := 0
@@ -1702,6 +1707,10 @@ func wsStartFaults(c *Ctx) {
 		fail := func(class, what string) {
 			c.Res.Add(proto.Finding{Kind: "violation", Class: class, What: s.name + ": " + what, Case: map[string]any{"start_case": s.name}})
 		}
+		if got.err != nil && strings.HasPrefix(got.err.Error(), "PANIC: ") {
+			fail("panic:start", "Start panicked: "+got.err.Error())
+			continue
+		}
 		if wantFail != (got.err != nil) {
 			fail("start-outcome", fmt.Sprintf("Start error = %v, expected failure = %v", got.err, wantFail))
 		}
@@ -1726,6 +1735,31 @@ func wsStartFaults(c *Ctx) {
 		if got.err == nil {
 			continue
 		}
+		if s.closeNow {
+			// ---- Close straight after the failed Start (the usual `defer client.Close()`): returns, does not panic
+			c.Res.Eval()
+			c.Res.NonTrivial("start-fail-close:" + s.name)
+			closeRes := make(chan error, 1)
+			go func() { closeRes <- guardErr(cl.Close) }()
+		loopc:
+			for {
+				select {
+				case rep := <-k.reports:
+					if rep.kind == "write" {
+						rep.wgate <- true
+					}
+				case cerr := <-closeRes:
+					if cerr != nil && strings.HasPrefix(cerr.Error(), "PANIC: ") {
+						fail("panic:close-after-failed-start", "Close after a failed Start ("+s.name+") panicked: "+cerr.Error())
+					}
+					break loopc
+				case <-time.After(wsWait):
+					fail("close-hangs", "Close after a failed Start did not return: "+s.name)
+					break loopc
+				}
+			}
+			continue
+		}
 		// ---- a failed Start retried on the SAME client, then Close: every connection that was dialed must end up
 		// closed and the error channel of the successful Start must be closed ----
 		c.Res.Eval()
@@ -1734,7 +1768,7 @@ func wsStartFaults(c *Ctx) {
 		k.dialFail = false
 		k.mu.Unlock()
 		res2 := make(chan sr, 1)
-		go func() { ch, err := cl.Start(context.Background()); res2 <- sr{ch, err} }()
+		go func() { ch, err := guardStart(cl); res2 <- sr{ch, err} }()
 		var got2 sr
 		acked := false
 		var parked chan wsRead
@@ -1761,12 +1795,16 @@ func wsStartFaults(c *Ctx) {
 			}
 		}
 		_ = parked
+		if got2.err != nil && strings.HasPrefix(got2.err.Error(), "PANIC: ") {
+			fail("panic:retried-start", "a Start retried after a failed Start panicked: "+got2.err.Error())
+			continue
+		}
 		if got2.err != nil {
 			fail("start-retry-failed", fmt.Sprintf("a Start retried after a failed Start fails although dial, init and ack succeed: %v", got2.err))
 			continue
 		}
 		closeRes := make(chan error, 1)
-		go func() { closeRes <- cl.Close() }()
+		go func() { closeRes <- guardErr(cl.Close) }()
 	loop3:
 		for {
 			select {
@@ -1777,7 +1815,10 @@ func wsStartFaults(c *Ctx) {
 				case "read":
 					// reads after the close are answered by the fake connection itself
 				}
-			case <-closeRes:
+			case cerr := <-closeRes:
+				if cerr != nil && strings.HasPrefix(cerr.Error(), "PANIC: ") {
+					fail("panic:close-after-retried-start", "Close after failed Start, retried Start panicked: "+cerr.Error())
+				}
 				break loop3
 			case <-time.After(wsWait):
 				fail("close-hangs", "Close after a retried Start did not return")
@@ -1814,4 +1855,24 @@ func wsStartFaults(c *Ctx) {
 		case <-time.After(200 * time.Millisecond):
 		}
 	}
+}
+
+// guardErr runs an API call and turns a panic into an error whose text starts with "PANIC: ", so that a panicking
+// client is reported as a finding instead of killing the harness.
+func guardErr(f func() error) (err error) {
+	defer func() {
+		if p := recover(); p != nil {
+			err = fmt.Errorf("PANIC: %v", p)
+		}
+	}()
+	return f()
+}
+
+func guardStart(cl graphql.WebSocketClient) (ch chan error, err error) {
+	err = guardErr(func() error {
+		var e error
+		ch, e = cl.Start(context.Background())
+		return e
+	})
+	return ch, err
 }
